@@ -35,6 +35,38 @@ def run(ctx):
                                  metas=("m0", "m1", "m2", "mt", "mu") if not vttl else ("m0", "m2", "mu"))
         script_parts.append((vttl, h))
     volfam.execute_and_judge_multi(ctx, script_parts)
+    if not ctx.replay:
+        # operations issued WHILE a (throttled) index-based compaction is running on the real server
+        rng2 = random.Random(ctx.seed + 99)
+        conc = []
+        for _ in range(160 if ctx.thorough else 32):
+            pre = [{"ev": "write", "k": k, "c": "c1", "d": rng2.choice(["H", "I"]), "m": "m0"} for k in (1, 2, 3)]
+            if rng2.random() < 0.5:
+                pre.append({"ev": "delete", "k": rng2.choice([1, 2, 3]), "c": "c1"})
+            during = []
+            for k in rng2.sample([1, 2, 3], rng2.randint(1, 3)):
+                if rng2.random() < 0.6:
+                    during.append({"ev": "write", "k": k, "c": "c1", "d": rng2.choice(["a", "b", "H", "I"]), "m": "m0",
+                                   "delay": rng2.randint(0, 700)})
+                else:
+                    during.append({"ev": "delete", "k": k, "c": "c1", "delay": rng2.randint(0, 700)})
+            h = pre + [{"ev": "compact", "algo": 2, "during": during}]
+            if rng2.random() < 0.5:
+                h.append({"ev": "write", "k": rng2.choice([1, 2, 3]), "c": "c1", "d": rng2.choice(["a", "b"]), "m": "m0"})
+            h += [{"ev": "commit"}, {"ev": "restart"}]
+            conc.append(h)
+        import json as _json
+        import os as _os
+        script = _os.path.join(ctx.out, "conc-script.ndjson")
+        with open(script, "w") as f:
+            for h in conc:
+                f.write(_json.dumps({"ev": "reset", "vttl": "", "keys": [1, 2, 3], "cookies": ["c1"]}) + "\n")
+                for op in h:
+                    f.write(_json.dumps(op) + "\n")
+        binp = ctx.build("cvol")
+        trace = ctx.drive(binp, ["--script", script, "--mode", "throttled"], name="conc", timeout=2400)
+        ctx.judge("BlobStoreTrace", trace, "trace_base.cfg", {}, nontrivial=volfam.nontrivial, label="conc")
+        ctx.notes["executions_with_operations_during_a_running_compaction"] = len(conc)
     ctx.rule = ("executions = TLC-generated histories of VolumeImpl that contain a compaction commit or cleanup (G2 witnesses "
                 "over 2 keys x {empty, small, small2} x {no TTL, blob TTL + old client timestamp, blob TTL}, both compaction "
                 "algorithms, writes/deletes between compact and commit; G3 random depth 12) + seeded random histories, each on a "
@@ -46,4 +78,7 @@ def run(ctx):
         "hook; index-based compaction, commit and cleanup through the vacuum RPCs",
         "on the TTL volume no client timestamp in the past is used: such a write makes the whole volume expire at the next "
         "heartbeat (recorded under C09), which would mask compaction",
+        "operations during a RUNNING compaction: the volume server's compaction is throttled to 1 MB/s, 256 KB blobs, writes/deletes "
+        "on distinct keys are sent 20-720 ms after the compact RPC; they are recorded after the compaction event (its order "
+        "relative to them carries no meaning for a step that must be invisible)",
         "TTL expiry by elapsed time is not exercised here (blobs carry a 1h TTL and executions last milliseconds)"]
